@@ -43,6 +43,11 @@ class Violation(AssertionError):
         self.detail = detail
 
 
+class _Guard:
+    ok = True
+    exc = None
+
+
 class HarnessError(Exception):
     """Something is wrong with the harness / generator, not with the code under test."""
 
@@ -117,7 +122,8 @@ class Findings:
         entry's ``match`` dict is present in the descriptor with an equal value
         (or a value contained in the entry's list)."""
         for e in self.entries:
-            if e["subcheck"] != subcheck:
+            subs = e["subcheck"] if isinstance(e["subcheck"], list) else [e["subcheck"]]
+            if subcheck not in subs:
                 continue
             ok = True
             for k, want in e.get("match", {}).items():
@@ -203,8 +209,10 @@ class Ctx:
         """The property implies this block does not raise: any exception from the
         code under test is a violation (BaseException because nanite's own error
         classes derive from BaseException)."""
+        guard = _Guard()
+        pending = None
         try:
-            yield
+            yield guard
         except (Violation, HarnessError, KeyboardInterrupt, SystemExit, MemoryError):
             raise
         except allowed:
@@ -218,7 +226,13 @@ class Ctx:
                     break
             d = dict(descriptor or {})
             d.setdefault("exception", type(exc).__name__)
-            self.fail(subcheck, d, f"raised {type(exc).__name__}: {str(exc)[:200]}{where}")
+            guard.ok = False     # if it is a listed known finding the caller skips the rest of the case
+            guard.exc = exc
+            pending = (d, f"raised {type(exc).__name__}: {str(exc)[:200]}{where}")
+        if pending is not None:
+            # verdict outside the except block: a Violation must not carry the library's exception
+            # as __context__ (Hypothesis keys failures on the context chain -> flaky replays)
+            self.fail(subcheck, *pending)
 
     # ---- drivers
     def hseed(self):
@@ -258,6 +272,18 @@ class Ctx:
                                     "detail": v2.detail, "case": case, "label": label})
         except hypothesis.errors.FailedHealthCheck as exc:
             raise HarnessError(f"health check: {exc}") from exc
+        except BaseException as exc:  # noqa
+            # Hypothesis reports a failure that did not reproduce identically while shrinking as
+            # Flaky / FlakyFailure (an exception group). If a Violation of the code under test was
+            # observed it is reported (marked flaky); anything else is a harness error.
+            if "Flaky" in type(exc).__name__ and "last" in holder:
+                case, v2 = holder["last"]
+                self.violations.append({"subcheck": v2.subcheck, "descriptor": v2.descriptor,
+                                        "detail": "[not reproducible under replay: nondeterministic code "
+                                                  "under test or optimizer] " + v2.detail,
+                                        "case": case, "label": label})
+            else:
+                raise
 
     def direct(self, fn, case, label=None):
         """Run one fixed (not generated) sub-check; a Violation is recorded, not raised."""
